@@ -1,15 +1,15 @@
 CONSTANTS
-    Party = {p1}
-    Quorum = 1
+    Party = {p1, p2}
+    Quorum = 2
     MaxEpoch = 3
     MaxImm = 1
-    LabelChecked = FALSE
-    AtomicSeal = FALSE
-    RegSets = {{p1}}
-    MaxCerts = 5
+    LabelChecked = TRUE
+    AtomicSeal = TRUE
+    RegSets = {{p1, p2}, {p1}}
+    MaxCerts = 3
     MaxDepthHist = 0
-    ExcuseDoubleCert = TRUE
-    ExcuseRelabel = TRUE
+    ExcuseDoubleCert = FALSE
+    ExcuseRelabel = FALSE
 SPECIFICATION Spec
 VIEW view
 CONSTRAINT Bound
